@@ -536,5 +536,80 @@ func nm(f *ssa.Function) string {
 	if f == nil {
 		return "\x00unresolved"
 	}
-	return f.Name()
+	return an.CanonNameOf(f) // the recorded name, if the function was renamed
+}
+
+// onlyParamOfType: the single parameter of f (receiver excluded) whose type prints as t, or nil.
+func onlyParamOfType(f *ssa.Function, t string) *ssa.Parameter {
+	var out *ssa.Parameter
+	for i, par := range f.Params {
+		if i == 0 && f.Signature.Recv() != nil {
+			continue
+		}
+		if par.Type().String() == t {
+			if out != nil {
+				return nil
+			}
+			out = par
+		}
+	}
+	return out
+}
+
+// closuresOf: the function literals of f and — when the tree has functions the reviewed tree did not have — those of
+// them (in f's package) that f reaches through the call graph: a literal turned into a method of a small struct, a
+// callback object implementing a library interface. On the reviewed tree this is just f.AnonFuncs.
+func closuresOf(p *an.Prog, f *ssa.Function) []*ssa.Function {
+	if f == nil {
+		return nil
+	}
+	out := append([]*ssa.Function{}, f.AnonFuncs...)
+	fresh := p.Fresh()
+	if len(fresh) == 0 {
+		return out
+	}
+	isFresh := map[*ssa.Function]bool{}
+	for _, g := range fresh {
+		if an.FuncPkg(g) == an.FuncPkg(f) {
+			isFresh[g] = true
+		}
+	}
+	if len(isFresh) == 0 {
+		return out
+	}
+	reached, _ := p.Reach([]*ssa.Function{f}, an.ReachOpts{})
+	// a callback object: f builds a value of a (new) struct type and hands it on — its methods run on f's behalf
+	made := map[*types.TypeName]bool{}
+	for _, h := range append([]*ssa.Function{f}, f.AnonFuncs...) {
+		an.Instrs(h, func(in ssa.Instruction) {
+			var t types.Type
+			switch x := in.(type) {
+			case *ssa.Alloc:
+				t = x.Type()
+			case *ssa.MakeInterface:
+				t = x.X.Type()
+			}
+			if t != nil {
+				if n := an.NamedOf(t); n != nil {
+					made[n.Obj()] = true
+				}
+			}
+		})
+	}
+	for g := range isFresh {
+		if rv := g.Signature.Recv(); rv != nil {
+			if n := an.NamedOf(rv.Type()); n != nil && made[n.Obj()] {
+				reached[g] = true
+			}
+		}
+	}
+	var add []*ssa.Function
+	for g := range reached {
+		if isFresh[g] && g != f {
+			add = append(add, g)
+			add = append(add, g.AnonFuncs...)
+		}
+	}
+	sort.Slice(add, func(i, j int) bool { return sk(add[i]) < sk(add[j]) })
+	return append(out, add...)
 }
